@@ -330,37 +330,49 @@ def population_stage_records(seed):
 
 
 def measurement_stage_checks(seed):
-    """stage 2: measurements as a function of the error-stage atoms, numerically (mechanistic output is real valued)"""
+    """stage 2: measurements as a function of the error-stage atoms, numerically (mechanistic output is real valued); once with
+    the model's own outputs and once with the optional outputs= argument listing the SAME outputs in the other order (error
+    model i belongs to outputs[i])"""
     from .replay_samplealgebra import identify
     fails = []
     rng = np.random.default_rng(seed)
-    tag = 'prm'
-    pm = chi.PredictiveModel(probes.ProbeMech(2, 2, tag=tag), [chi.GaussianErrorModel(), chi.LogNormalErrorModel()])
-    params = [1.2, 0.9, 0.3, 0.4]
     tms = [1.5, 0.5]
-
-    def fn():
-        return pm.sample(params, tms, n_samples=2, seed=1, return_df=False)
-    atoms, cells, shape = identify(fn, rng)
     st = np.sort(tms)
-    k = 0
-    supports = []
-    for o in range(2):
-        pred = probes.probe_output(o, st, np.array(params[:2]))
-        for t in range(2):
-            for s in range(2):
-                c = cells[k]
-                k += 1
-                supports.append(tuple(j for j, _ in c['coef']))
-                if o == 0:
-                    ok = c['form'] == 'affine' and abs(c['c0'] - pred[t]) < 1e-12 and len(c['coef']) == 1 and abs(c['coef'][0][1] - 0.3) < 1e-12
-                else:
-                    ok = c['form'] == 'logaffine' and abs(c['c0'] - (np.log(pred[t]) - 0.08)) < 1e-12 and len(c['coef']) == 1 \
-                        and abs(c['coef'][0][1] - 0.4) < 1e-12
-                if not ok:
-                    fails.append(('CellLaw', 'measurement_stage', dict(output=o + 1, time=float(st[t]), sample=s + 1, cell=c)))
-    if len(set(supports)) != len(supports):
-        fails.append(('Independent', 'measurement_stage', dict(supports=supports)))
+    for variant in ('own_outputs', 'outputs_argument_reordered'):
+        tag = 'prm' + variant[:3]
+        if variant == 'own_outputs':
+            layout = [(0, 'G', 0.3), (1, 'L', 0.4)]
+            pm = chi.PredictiveModel(probes.ProbeMech(2, 2, tag=tag), [chi.GaussianErrorModel(), chi.LogNormalErrorModel()])
+        else:
+            layout = [(1, 'L', 0.4), (0, 'G', 0.3)]
+            pm = chi.PredictiveModel(probes.ProbeMech(2, 2, tag=tag), [chi.LogNormalErrorModel(), chi.GaussianErrorModel()],
+                                     outputs=['Y2', 'Y1'])
+            if list(pm.get_output_names()) != ['Y2', 'Y1']:
+                fails.append(('LabelsOK', 'outputs_argument_order', dict(got=list(pm.get_output_names()), expected=['Y2', 'Y1'])))
+                continue
+        params = [1.2, 0.9] + [sg for _, _, sg in layout]
+
+        def fn():
+            return pm.sample(params, tms, n_samples=2, seed=1, return_df=False)
+        atoms, cells, shape = identify(fn, rng)
+        k = 0
+        supports = []
+        for o, (po, law, sg) in enumerate(layout):
+            pred = probes.probe_output(po, st, np.array(params[:2]))
+            for t in range(2):
+                for s in range(2):
+                    c = cells[k]
+                    k += 1
+                    supports.append(tuple(j for j, _ in c['coef']))
+                    if law == 'G':
+                        ok = c['form'] == 'affine' and abs(c['c0'] - pred[t]) < 1e-12 and len(c['coef']) == 1 and abs(c['coef'][0][1] - sg) < 1e-12
+                    else:
+                        ok = c['form'] == 'logaffine' and abs(c['c0'] - (np.log(pred[t]) - sg ** 2 / 2)) < 1e-12 and len(c['coef']) == 1 \
+                            and abs(c['coef'][0][1] - sg) < 1e-12
+                    if not ok:
+                        fails.append(('CellLaw', 'measurement_stage', dict(variant=variant, output=o + 1, time=float(st[t]), sample=s + 1, cell=c)))
+        if len(set(supports)) != len(supports):
+            fails.append(('Independent', 'measurement_stage', dict(variant=variant, supports=supports)))
     return fails
 
 
